@@ -8,6 +8,7 @@ import (
 	"go/constant"
 	"go/token"
 	"go/types"
+	"regexp"
 	"sort"
 	"strings"
 
@@ -336,6 +337,8 @@ func (qz *quantizer) callClosure(cb *fnBinding, args []ssa.Value) *qf {
 	return f
 }
 
+var valueRecvRe = regexp.MustCompile(`^\(([A-Za-z_][A-Za-z0-9_]*\.[A-Za-z_][A-Za-z0-9_]*)\)\.`)
+
 // prov: canonical, position-free description of where a value comes from.
 func (qz *quantizer) prov(v ssa.Value, d int) string {
 	if d > 8 {
@@ -369,7 +372,7 @@ func (qz *quantizer) prov(v ssa.Value, d int) string {
 		}
 		name := "?"
 		if c := t.Call.StaticCallee(); c != nil {
-			name = qz.p.shortKey(c)
+			name = valueRecvRe.ReplaceAllString(qz.p.shortKey(c), "(*$1).") // (T).m and (*T).m name one method
 		} else if b, ok := t.Call.Value.(*ssa.Builtin); ok {
 			name = b.Name()
 		}
@@ -415,10 +418,18 @@ func (qz *quantizer) prov(v ssa.Value, d int) string {
 				}
 				return base + "." + name
 			}
-			if inner := qz.prov(t.X, d+1); strings.HasPrefix(inner, "&cell:") {
+			inner := qz.prov(t.X, d+1)
+			if strings.HasPrefix(inner, "&cell:") {
 				return strings.TrimPrefix(inner, "&cell:")
 			}
-			return "*" + qz.prov(t.X, d+1)
+			if al, isAl := t.X.(*ssa.Alloc); isAl {
+				// a struct held by value (a spilled by-value parameter, a literal) denotes the same term as a
+				// pointer to it: fields are selected from it either way
+				if _, stt := namedStruct(al.Type().Underlying().(*types.Pointer).Elem()); stt != nil && (strings.HasPrefix(inner, "param:") || strings.HasPrefix(inner, "&{")) {
+					return inner
+				}
+			}
+			return "*" + inner
 		}
 		return t.Op.String() + qz.prov(t.X, d+1)
 	case *ssa.Lookup:
@@ -431,6 +442,12 @@ func (qz *quantizer) prov(v ssa.Value, d int) string {
 			if st, ok := r.(*ssa.Store); ok && st.Addr == ssa.Value(t) {
 				if ld, ok := st.Val.(*ssa.UnOp); ok && ld.Op == token.MUL {
 					return qz.prov(ld.X, d+1) // the copy denotes the same term
+				}
+				if prm, ok := st.Val.(*ssa.Parameter); ok {
+					// a by-value struct parameter (value receiver) spilled to a local: the parameter itself
+					if _, stt := namedStruct(prm.Type()); stt != nil {
+						return qz.prov(prm, d+1)
+					}
 				}
 			}
 		}
@@ -514,7 +531,11 @@ func (qz *quantizer) retProv(c *ssa.Call, k int) (string, bool) {
 		if qz.inlineAll && qz.p.InModule(callee) && len(callee.Blocks) == 1 {
 			// a one-block constructor of a struct literal (pair.reversed()): the literal itself
 			if ret, ok := callee.Blocks[0].Instrs[len(callee.Blocks[0].Instrs)-1].(*ssa.Return); ok && k < len(ret.Results) {
-				if al, ok := ret.Results[k].(*ssa.Alloc); ok {
+				rv := ret.Results[k]
+				if ld, ok := rv.(*ssa.UnOp); ok && ld.Op == token.MUL {
+					rv = ld.X // the literal returned by value
+				}
+				if al, ok := rv.(*ssa.Alloc); ok {
 					if _, st := namedStruct(al.Type().Underlying().(*types.Pointer).Elem()); st != nil {
 						structLit = true
 					}
@@ -609,6 +630,40 @@ func (qz *quantizer) boolOf(v ssa.Value, phis map[*ssa.Phi]*qf) *qf {
 			}
 		}
 	case *ssa.BinOp:
+		// cmp.Compare(a, b) OP 0  is  a OP b
+		for _, pr := range [][2]ssa.Value{{t.X, t.Y}, {t.Y, t.X}} {
+			k, isK := pr[1].(*ssa.Const)
+			c, isC := pr[0].(*ssa.Call)
+			if !isK || !isC || k.Value == nil || k.Value.Kind() != constant.Int || k.Int64() != 0 || len(c.Call.Args) != 2 {
+				continue
+			}
+			callee := c.Call.StaticCallee()
+			if callee == nil {
+				continue
+			}
+			o := callee.Origin()
+			if o == nil {
+				o = callee
+			}
+			if o.Pkg == nil || o.Pkg.Pkg.Path() != "cmp" || o.Name() != "Compare" {
+				continue
+			}
+			op := t.Op
+			if pr[0] == t.Y {
+				// 0 OP cmp(a,b): mirror
+				switch op {
+				case token.LSS:
+					op = token.GTR
+				case token.GTR:
+					op = token.LSS
+				case token.LEQ:
+					op = token.GEQ
+				case token.GEQ:
+					op = token.LEQ
+				}
+			}
+			return &qf{Op: "atom", Atom: "(" + qz.prov(c.Call.Args[0], 0) + " " + op.String() + " " + qz.prov(c.Call.Args[1], 0) + ")"}
+		}
 		// helper(...) == K for a helper that returns one of a few constants (a three-way comparison, an
 		// enum): the disjunction of the conditions under which it returns K
 		if (t.Op == token.EQL || t.Op == token.NEQ) && (qz.inlineAll || qz.stop != nil) && qz.depth < qz.maxDepth() {
